@@ -1131,6 +1131,17 @@ impl<'s> Semantics<'s> {
             // get started
             let dst = self.operand_load(block, &detail.operands[0])?;
 
+            // In 64-bit mode the target of a direct call is a full 64-bit
+            // address whatever prefixes the call carries; for a REX.W call
+            // ("rex64 call", as in the TLS call sequence) capstone reports a
+            // 4-byte immediate.
+            let dst = match detail.operands[0].type_ {
+                x86_op_type::X86_OP_IMM if self.mode().bits() == 64 => {
+                    expr_const(detail.operands[0].imm() as u64, 64)
+                }
+                _ => dst,
+            };
+
             // the target is read before the return address is pushed (call rsp)
             let dst = if dst.scalars().is_empty() {
                 dst
